@@ -89,13 +89,13 @@ func (x *Exec) entryHeapFacts(key string, s *Sort) {
 			x.trusted[offsetAssumption] = true
 		}
 	}
-	x.refBound(x.ctx.Const("H0_"+key, s), 0)
+	x.refBound(x.ctx.Const("H0_"+key, s), IntLit(0))
 	x.perm = append(x.perm, x.facts[n:]...)
 	x.facts = x.facts[:n]
 }
 
 // refBound asserts allocId(v) <= bound for every Ref stored (at any index) in array term arr.
-func (x *Exec) refBound(arr *Term, bound int) {
+func (x *Exec) refBound(arr *Term, bound *Term) {
 	var idx []*Term
 	srt := arr.Sort
 	cur := arr
@@ -109,7 +109,7 @@ func (x *Exec) refBound(arr *Term, bound int) {
 		return
 	}
 	x.useAxioms("alloc")
-	x.facts = append(x.facts, Forall(idx, Le(x.ctx.App("allocId", IntSort, cur), IntLit(int64(bound))), []*Term{cur}))
+	x.facts = append(x.facts, Forall(idx, Le(x.ctx.App("allocId", IntSort, cur), bound), []*Term{cur}))
 }
 
 // liftSort lifts sort s over the array indices in path.
@@ -199,7 +199,7 @@ func (x *Exec) store(st *State, p *Pointer, v *Value) {
 		key, stored, idxs := x.leafKey(p, l)
 		arr := x.heapArr(st, key, stored)
 		st.heap[key] = storeN(arr, idxs, ts[i])
-		x.written[key] = true
+		x.noteWrite(key, p.Base)
 	}
 }
 
@@ -341,7 +341,8 @@ func (x *Exec) mapPresent(st *State, t types.Type, m *Term) *Term {
 }
 
 func (x *Exec) mapHas(st *State, t types.Type, m *Term, k *Value) *Term {
-	return selectN(x.mapPresent(st, t, m), leafTerms(k))
+	// a nil map has no keys
+	return And(Neq(m, x.null()), selectN(x.mapPresent(st, t, m), leafTerms(k)))
 }
 
 func (x *Exec) mapGetRaw(st *State, t types.Type, m *Term, k *Value) *Value {
@@ -374,18 +375,18 @@ func (x *Exec) mapSet(st *State, t types.Type, m *Term, k, v *Value) {
 	pk := "MP:" + mi.key
 	parr := x.heapArr(st, pk, ArraySort(RefSort, curried(mi.kLeaves, BoolSort)))
 	st.heap[pk] = storeN(parr, append([]*Term{m}, ks...), True)
-	x.written[pk] = true
+	x.noteWrite(pk, m)
 	vs := leafTerms(v)
 	for i, l := range leavesOf(mi.vT) {
 		key := "MV:" + mi.key + "/" + l.Path
 		arr := x.heapArr(st, key, ArraySort(RefSort, curried(mi.kLeaves, l.Sort)))
 		st.heap[key] = storeN(arr, append([]*Term{m}, ks...), vs[i])
-		x.written[key] = true
+		x.noteWrite(key, m)
 	}
 	lk := "ML:" + mi.key
 	larr := x.heapArr(st, lk, ArraySort(RefSort, IntSort))
 	st.heap[lk] = Store(larr, m, Ite(had, Select(larr, m), Add(Select(larr, m), IntLit(1))))
-	x.written[lk] = true
+	x.noteWrite(lk, m)
 }
 
 func (x *Exec) mapDelete(st *State, t types.Type, m *Term, k *Value) {
@@ -395,11 +396,11 @@ func (x *Exec) mapDelete(st *State, t types.Type, m *Term, k *Value) {
 	pk := "MP:" + mi.key
 	parr := x.heapArr(st, pk, ArraySort(RefSort, curried(mi.kLeaves, BoolSort)))
 	st.heap[pk] = storeN(parr, append([]*Term{m}, ks...), False)
-	x.written[pk] = true
+	x.noteWrite(pk, m)
 	lk := "ML:" + mi.key
 	larr := x.heapArr(st, lk, ArraySort(RefSort, IntSort))
 	st.heap[lk] = Store(larr, m, Ite(had, Sub(Select(larr, m), IntLit(1)), Select(larr, m)))
-	x.written[lk] = true
+	x.noteWrite(lk, m)
 }
 
 // ---- state merge ----
@@ -454,15 +455,24 @@ func (x *Exec) mergeStates(sts []*State) *State {
 		for i := len(sts) - 1; i >= 0; i-- {
 			v, ok := sts[i].cells[c]
 			if !ok {
+				if c.T == nil {
+					continue
+				}
 				v = x.zeroValue(c.T)
 			}
 			if acc == nil {
 				acc = v
 			} else {
-				acc = iteValue(sts[i].guard, v, acc)
+				if c.T == nil {
+					acc = &Value{K: KScalar, Term: Ite(sts[i].guard, v.Term, acc.Term)}
+				} else {
+					acc = iteValue(sts[i].guard, v, acc)
+				}
 			}
 		}
-		out.cells[c] = acc
+		if acc != nil {
+			out.cells[c] = acc
+		}
 	}
 	return out
 }
@@ -485,4 +495,10 @@ func (x *Exec) name(prefix string, t *Term) *Term {
 	c := x.ctx.Fresh(prefix, t.Sort)
 	x.facts = append(x.facts, Eq(c, t))
 	return c
+}
+
+// noteWrite records that heap array `key` was written at object `base` (nil: unknown objects).
+func (x *Exec) noteWrite(key string, base *Term) {
+	x.written[key] = true
+	x.writeBases[key] = append(x.writeBases[key], base)
 }
